@@ -49,10 +49,13 @@ const (
 	rdByte           // the same seed-derived stream, delivered one byte per Read call
 	rdFail31         // delivers 31 bytes, then fails
 	rdEmpty          // fails immediately
+	rdChunk7         // the generic stream, 7 bytes per Read call (short reads with a nil error)
+	rdChunk16        // 16 bytes per Read call
+	rdChunk31        // 31 bytes per Read call
 	nReaders
 )
 
-var readerName = [...]string{"zero", "ff", "generic", "generic-1-byte-reads", "fails-after-31", "empty"}
+var readerName = [...]string{"zero", "ff", "generic", "generic-1-byte-reads", "fails-after-31", "empty", "generic-7-byte-reads", "generic-16-byte-reads", "generic-31-byte-reads"}
 
 // op is one operation instance.  Labels and data are constant-filled strings
 // ('a' unless fill says otherwise), so that histories which split the same
@@ -151,6 +154,31 @@ func (r *byteReader) Read(p []byte) (int, error) {
 	return 1, nil
 }
 
+// chunkReader delivers at most n bytes per call, with a nil error.
+type chunkReader struct {
+	b []byte
+	n int
+}
+
+func (r *chunkReader) Read(p []byte) (int, error) {
+	if len(p) == 0 {
+		return 0, nil
+	}
+	if len(r.b) == 0 {
+		return 0, io.EOF
+	}
+	n := r.n
+	if n > len(p) {
+		n = len(p)
+	}
+	if n > len(r.b) {
+		n = len(r.b)
+	}
+	copy(p, r.b[:n])
+	r.b = r.b[n:]
+	return n, nil
+}
+
 type failReader struct {
 	b   []byte
 	err error
@@ -173,7 +201,7 @@ func entropy(kind int) []byte {
 		return make([]byte, 32)
 	case rdFF:
 		return bytes.Repeat([]byte{0xff}, 32)
-	case rdGeneric, rdByte:
+	case rdGeneric, rdByte, rdChunk7, rdChunk16, rdChunk31:
 		return genericEntropy[:32]
 	}
 	return nil
@@ -186,6 +214,8 @@ func mkReader(kind int) io.Reader {
 		return bytes.NewReader(append(append([]byte{}, entropy(kind)...), genericEntropy[32:64]...))
 	case rdByte:
 		return &byteReader{b: append([]byte{}, genericEntropy[:64]...)}
+	case rdChunk7, rdChunk16, rdChunk31:
+		return &chunkReader{b: append([]byte{}, genericEntropy[:64]...), n: map[int]int{rdChunk7: 7, rdChunk16: 16, rdChunk31: 31}[kind]}
 	case rdFail31:
 		return &failReader{b: append([]byte{}, genericEntropy[:31]...), err: errors.New("verif: entropy source failed")}
 	}
